@@ -352,6 +352,10 @@ def advance(s, op):
     if not oc2.ok:
         s2.close()
         return s, Outcome(False, oc2.exc_class, 'open: %s' % oc2.exc_msg, oc2.exc_where)
+    # the new session carries the whole accepted history, marker included, so that replaying
+    # session.accepted reproduces it
+    s2.accepted = list(s.accepted) + [op]
+    s2.ops = list(s.ops) + [(op, Outcome(True))]
     s.close()
     return s2, Outcome(True)
 
